@@ -543,7 +543,10 @@ func c14Metadata(c *core.Ctx) {
 	for _, slot := range c14Slots {
 		for _, b := range c14Bindings {
 			for _, sch := range c14Schemes {
-				for _, attr := range []string{"Location", "ResponseLocation", "both", "Location+valid-ResponseLocation", "valid-Location+ResponseLocation"} {
+				for _, attr := range []string{"Location", "ResponseLocation", "both", "Location+valid-ResponseLocation", "valid-Location+ResponseLocation",
+					// the hostile value in a namespace-qualified attribute of the same local name (alone, and after a well-formed unqualified one);
+					// no Location at all next to a hostile ResponseLocation
+					"qualified-Location-only", "valid-Location+qualified-Location", "valid-Location+qualified-ResponseLocation", "no-Location+ResponseLocation", "empty-Location+ResponseLocation"} {
 					for _, wrap := range []bool{false, true} {
 						slot, b, sch, attr, wrap := slot, b, sch, attr, wrap
 						key := fmt.Sprintf("md/%s/%s/%s/%s/%s/entities=%v", slot.role, slot.el, b[strings.LastIndex(b, ":")+1:], sch.name, attr, wrap)
@@ -596,6 +599,18 @@ func c14MetadataBody(known map[string]bool) func(t *core.T, slot c14Slot, b stri
 			ep := fmt.Sprintf(`<%s Binding="%s" Location="%s"`, slot.el, b, xmlAttrEscape(loc))
 			if attr != "Location" {
 				ep += fmt.Sprintf(` ResponseLocation="%s"`, xmlAttrEscape(rloc))
+			}
+			switch attr {
+			case "qualified-Location-only":
+				ep = fmt.Sprintf(`<%s xmlns:q="urn:example:q" Binding="%s" q:Location="%s"`, slot.el, b, xmlAttrEscape(sch.loc))
+			case "valid-Location+qualified-Location":
+				ep = fmt.Sprintf(`<%s xmlns:q="urn:example:q" Binding="%s" Location="https://ok.example.com/loc" q:Location="%s"`, slot.el, b, xmlAttrEscape(sch.loc))
+			case "valid-Location+qualified-ResponseLocation":
+				ep = fmt.Sprintf(`<%s xmlns:q="urn:example:q" Binding="%s" Location="https://ok.example.com/loc" q:ResponseLocation="%s"`, slot.el, b, xmlAttrEscape(sch.loc))
+			case "no-Location+ResponseLocation":
+				ep = fmt.Sprintf(`<%s Binding="%s" ResponseLocation="%s"`, slot.el, b, xmlAttrEscape(sch.loc))
+			case "empty-Location+ResponseLocation":
+				ep = fmt.Sprintf(`<%s Binding="%s" Location="" ResponseLocation="%s"`, slot.el, b, xmlAttrEscape(sch.loc))
 			}
 			if slot.indexed {
 				ep += idxAttrs
